@@ -289,6 +289,13 @@ def is_checked_loader(repo: Repo, mod, e: ast.AST, scope: Optional[FuncInfo], de
             return f"wrapper {target.qualname}: {why}"
         if not (v.args and isinstance(v.args[0], ast.Name) and v.args[0].id == s):
             return f"wrapper {target.qualname} does not pass its stream to the checked loader"
+        # options the caller gives the unpickler (encoding, errors, fix_imports, buffers) must reach it: a wrapper that
+        # accepts them and drops them returns something else than the stock unpickler does for the same bytes
+        a = target.node.args
+        if a.vararg is not None and not any(isinstance(x, ast.Starred) and isinstance(x.value, ast.Name) and x.value.id == a.vararg.arg for x in v.args):
+            return f"wrapper {target.qualname} accepts *{a.vararg.arg} but does not forward it to the checked loader: unpickler options given by the caller are silently dropped"
+        if a.kwarg is not None and not any(k.arg is None and isinstance(k.value, ast.Name) and k.value.id == a.kwarg.arg for k in v.keywords):
+            return f"wrapper {target.qualname} accepts **{a.kwarg.arg} but does not forward it to the checked loader: unpickler options given by the caller (encoding=, errors=, fix_imports=) are silently dropped, so the returned object differs from the stock unpickler's"
     # the stream goes nowhere else
     for st in body:
         for n in walk_no_nested(st):
